@@ -1,0 +1,117 @@
+//! Verification hooks (only compiled with the `verif-hooks` feature).
+//!
+//! Nothing here changes the behaviour of the evaluator unless a hook is
+//! explicitly armed through the `verif_*` methods of [`Program`].
+
+use super::Program;
+
+/// When the evaluator's per-step `maybe_gc` call actually collects.
+#[derive(Clone, Copy, Debug, Default, PartialEq, Eq)]
+pub enum VerifGcMode {
+    /// The built-in heuristic.
+    #[default]
+    Default,
+    /// Never collect from inside the evaluator.
+    Never,
+    /// Collect every `n` evaluator steps (`n >= 1`).
+    Every(u64),
+    /// Collect pseudo-randomly, on average once every `one_in` steps.
+    Seeded { seed: u64, one_in: u64 },
+}
+
+#[derive(Default)]
+pub(super) struct VerifState {
+    gc_mode: VerifGcMode,
+    step: u64,
+    rng: u64,
+    pub(super) gc_runs: u64,
+    gc_freed: u64,
+    fuel: Option<u64>,
+    fuel_exhausted: bool,
+}
+
+impl Program<'_> {
+    /// Selects the collection schedule used by the evaluator.
+    pub fn verif_set_gc_mode(&mut self, mode: VerifGcMode) {
+        self.verif.gc_mode = mode;
+        self.verif.step = 0;
+        if let VerifGcMode::Seeded { seed, .. } = mode {
+            self.verif.rng = seed | 1;
+        }
+    }
+
+    /// Number of collections run so far (explicit and evaluator-triggered).
+    pub fn verif_gc_runs(&self) -> u64 {
+        self.verif.gc_runs
+    }
+
+    /// Number of objects freed by evaluator-triggered collections under a
+    /// non-default schedule.
+    pub fn verif_gc_freed(&self) -> u64 {
+        self.verif.gc_freed
+    }
+
+    /// Number of objects currently tracked by the collector.
+    pub fn verif_num_objects(&self) -> usize {
+        self.gc_ctx.num_objects()
+    }
+
+    /// Arms (or disarms) a step budget. When the budget is exhausted the
+    /// running evaluation is aborted with a stack-overflow error and
+    /// [`Program::verif_fuel_exhausted`] returns `true`.
+    pub fn verif_set_fuel(&mut self, fuel: Option<u64>) {
+        self.verif.fuel = fuel;
+        self.verif.fuel_exhausted = false;
+    }
+
+    pub fn verif_fuel_exhausted(&self) -> bool {
+        self.verif.fuel_exhausted
+    }
+
+    pub fn verif_fuel_left(&self) -> Option<u64> {
+        self.verif.fuel
+    }
+
+    /// Returns `true` when the budget is exhausted.
+    pub(super) fn verif_consume_fuel(&mut self) -> bool {
+        match self.verif.fuel {
+            None => false,
+            Some(0) => {
+                self.verif.fuel_exhausted = true;
+                true
+            }
+            Some(ref mut n) => {
+                *n -= 1;
+                false
+            }
+        }
+    }
+
+    /// Returns `true` when the default heuristic must be skipped.
+    pub(super) fn verif_maybe_gc_override(&mut self) -> bool {
+        let collect = match self.verif.gc_mode {
+            VerifGcMode::Default => return false,
+            VerifGcMode::Never => false,
+            VerifGcMode::Every(n) => {
+                self.verif.step += 1;
+                self.verif.step % n.max(1) == 0
+            }
+            VerifGcMode::Seeded { one_in, .. } => {
+                // xorshift64
+                let mut x = self.verif.rng;
+                x ^= x << 13;
+                x ^= x >> 7;
+                x ^= x << 17;
+                self.verif.rng = x;
+                x % one_in.max(1) == 0
+            }
+        };
+        if collect {
+            let before = self.gc_ctx.num_objects();
+            self.gc();
+            let after = self.gc_ctx.num_objects();
+            self.verif.gc_freed += (before - after) as u64;
+        }
+        true
+    }
+}
